@@ -469,6 +469,7 @@ package checkers
 //@ func (*nilValReturnChecker).becomesInterface
 //@   prop C12
 //@   nosafety node shapes are the subject of the C01 sweep
+//@   requires c != nil && ctxOK(c.ctx)
 //@   abstracts result as becomesIface(ret, i, x)
 
 //@ func (*nilValReturnChecker).VisitStmt
